@@ -186,17 +186,26 @@ def r07_1(ctx, repo):
             lf = ShapeLifter(repo, cls, flags={'names is None': True})
             env = _cov_env()
             env['names'] = None
-            lf.run(fn, env)
-        # names are built in a loop the generic walker summarises
+            try:
+                lf._block(fn.body, env, fn, 0, cls)
+            except Exception:
+                pass
             names = None
-            for st in ast.walk(fn):
-                if isinstance(st, ast.For):
-                    e2 = dict(env)
-                    e2['names'] = Arr((Ax(0, ()),), is_list=True)
-                    lf2 = ShapeLifter(repo, cls)
-                    lf2.for_loop(st, e2, fn, 0, cls)
-                    if isinstance(e2.get('names'), Arr):
-                        names = e2['names']
+            for key in ('self._parameter_names', 'names'):
+                if isinstance(env.get(key), Arr) and env[key].ndim == 1 \
+                        and not eq(env[key].total(), 0):
+                    names = env[key]
+                    break
+            # names built in a loop the generic walker summarises
+            if names is None:
+                for st in ast.walk(fn):
+                    if isinstance(st, ast.For):
+                        e2 = dict(_cov_env())
+                        e2['names'] = Arr((Ax(0, ()),), is_list=True)
+                        lf2 = ShapeLifter(repo, cls)
+                        lf2.for_loop(st, e2, fn, 0, cls)
+                        if isinstance(e2.get('names'), Arr):
+                            names = e2['names']
             if names is not None:
                 layouts['default names'] = (names.axes[0].nest, fn)
         # compare
